@@ -35,7 +35,7 @@ WORKS = collections.OrderedDict([
     ("inclist", ("{% include ['nope.html', 'leaf'] ignore missing %}", [KI])),
     ("incvar", ("{% set lf = ['leaf'] %}{% include lf %}", [KI])),
     ("incmissing", ("{% include ['nope.html', 'nope2.html'] ignore missing %}", None)),
-    ("from", ("{% from 'leaflib' import lm %}{{ lm() }}", [KP, KI, None, KM])),
+    ("from", ("{% from 'leaflib' import lm %}", [KP, KI])),
     ("blk", ("{{ self.leaf() }}", [KB])),
     ("blkwith", ("{{ self.leaf2() }}", [KB, KP])),
     ("callh", ("{% call w() %}c{% endcall %}", [KM, KM])),
@@ -154,8 +154,13 @@ def enc_items(items):
     return out
 
 
-def edge_items(entry):
-    return {"mac": [call(KM)], "call": [call(KM)], "inc": [call(KI)], "imp": [call(KP), call(KI)], "blk": [call(KB)]}[entry]
+def edge_items(entry, spell=None):
+    base = {"mac": [call(KM)], "call": [call(KM)], "inc": [call(KI)], "imp": [call(KP), call(KI)], "blk": [call(KB)]}[entry]
+    return [list(x) for x in SPELL[entry][spell or canonical(entry)][1]] + base
+
+
+def canonical(entry):
+    return next(iter(SPELL[entry]))
 
 
 def wrap_text(wraps, inner, names):
@@ -180,6 +185,10 @@ def work_items(works):
     return [work(WORKS[wn][1]) for wn in works if WORKS[wn][1] is not None]
 
 
+LEAVES = {"leaf": "z", "leaflib": "{% macro lm() %}x{% endmacro %}"}
+BLOCK_WORKS = ("blk", "blkwith")
+
+
 def rotate_to_template_entry(nodes):
     """A cycle with an include/import edge is entered at one of them (its node is a template's top level)."""
     for i, nd in enumerate(nodes):
@@ -188,11 +197,16 @@ def rotate_to_template_entry(nodes):
     return nodes
 
 
-def cycle_shape(nodes, root_wraps=(), supers=0, chain_wraps=None):
-    """nodes: [{"entry": mac|call|inc|imp|blk, "works": [...], "wraps": [...]}]; node j calls node j+1 (mod k).
-    supers: number of super() edges that lead from the rendered template's block b up to the block the
-    cycle is started from (0 = started from the top level of main)."""
-    nodes = rotate_to_template_entry(list(nodes))
+def extends_text(parent, spell=None):
+    return EXTENDS_SPELL[spell or "literal"].replace("@C@", parent)
+
+
+def cycle_shape(nodes, root_wraps=(), supers=0, chain_wraps=None, root_spell=None, chain_spells=None):
+    """nodes: [{"entry": mac|call|inc|imp|blk, "works": [...], "wraps": [...], "spell": how node j is invoked}];
+    node j calls node j+1 (mod k).  supers: number of super() edges that lead from the rendered template's block b up
+    to the block the cycle is started from (0 = started from the top level of main).  root_spell: how the start
+    invokes node 0; chain_spells: [(extends spelling, super() spelling)] of the templates below the host."""
+    nodes = rotate_to_template_entry([dict(nd) for nd in nodes])
     k = len(nodes)
     seg_of, seg_start = [], []
     for i, nd in enumerate(nodes):
@@ -200,106 +214,166 @@ def cycle_shape(nodes, root_wraps=(), supers=0, chain_wraps=None):
             seg_start.append(i)
         seg_of.append(len(seg_start) - 1)          # -1: lives in the host template
     host = "main" if supers == 0 else "c%d" % supers
+    # from-import discards the output of what it renders, and a discarded block call is skipped: no block edges then
+    has_blk = any(nd["entry"] == "blk" or any(w in BLOCK_WORKS for w in nd["works"]) for nd in nodes)
+    for nd in nodes:
+        sp = nd.get("spell") or canonical(nd["entry"])
+        if sp not in SPELL[nd["entry"]]:
+            sp = canonical(nd["entry"])
+        if has_blk and sp in FROM_SPELLS:
+            sp = "import"
+        nd["spell"] = sp
+    rs = root_spell if root_spell in SPELL[nodes[0]["entry"]] else nodes[0]["spell"]
+    if has_blk and rs in FROM_SPELLS:
+        rs = "import"
+
+    def may_inline(j, caller_wraps, caller_entry):
+        """the {% block %} tag of node j can stand where its caller calls it: same template, not inside a macro"""
+        return nodes[j]["entry"] == "blk" and "callwrap" not in caller_wraps and caller_entry in ("inc", "imp", "blk", "root")
+
+    inline = [False] * k
+    for j in range(1, k):
+        if nodes[j]["spell"] == "inline":
+            if seg_of[j] == seg_of[j - 1] and may_inline(j, nodes[j - 1]["wraps"], nodes[j - 1]["entry"]):
+                inline[j] = True
+            else:
+                nodes[j]["spell"] = "self"
+    root_inline = rs == "inline" and seg_of[0] < 0 and may_inline(0, list(root_wraps), "root")
+    if rs == "inline" and not root_inline:
+        rs = "self"
+    if nodes[0]["spell"] == "inline":
+        nodes[0]["spell"] = "self"          # the edge that closes the cycle is always a call by name
 
     def tname(i):
         return host if seg_of[i] < 0 else "t%d" % seg_of[i]
 
-    def names_for(i):
-        return ["z0", "h", "h2", "w"] + ["n%d" % j for j in range(k) if nodes[j]["entry"] in ("mac", "call") and seg_of[j] == seg_of[i]]
+    def names_for(seg):
+        return ["z0", "h", "h2", "w"] + ["n%d" % j for j in range(k) if nodes[j]["entry"] in ("mac", "call") and seg_of[j] == seg]
 
-    def invoke(j):
-        e = nodes[j]["entry"]
-        if e == "mac":
-            return "{{ n%d() }}" % j
-        if e == "call":
-            return "{%% call n%d() %%}.{%% endcall %%}" % j
-        if e == "inc":
-            return "{%% include '%s' %%}" % tname(j)
-        if e == "imp":
-            return "{%% import '%s' as im %%}" % tname(j)
-        return "{{ self.b%d() }}" % j
+    def invoke(j, spell, as_inline):
+        if as_inline:
+            return "{%% block b%d %%}%s{%% endblock %%}" % (j, body(j))
+        t = SPELL[nodes[j]["entry"]][spell][0]
+        return t.replace("@T@", tname(j)).replace("@N@", "n%d" % j).replace("@B@", "b%d" % j)
 
     def body(i):
         nd = nodes[i]
         nxt = (i + 1) % k
         t = PROBE + ("{{ caller() }}" if nd["entry"] == "call" else "") + work_text(nd["works"])
-        return t + wrap_text(nd["wraps"], invoke(nxt), names_for(i))
+        return t + wrap_text(nd["wraps"], invoke(nxt, nodes[nxt]["spell"], nxt != 0 and inline[nxt]), names_for(seg_of[i]))
 
     def node_items(i):
         nd = nodes[i]
         nxt = (i + 1) % k
         return ([[0]] + ([work([KM])] if nd["entry"] == "call" else []) + work_items(nd["works"]) + wrap_items(nd["wraps"])
-                + edge_items(nodes[nxt]["entry"]))
+                + edge_items(nodes[nxt]["entry"], nodes[nxt]["spell"]))
 
-    templates = {"leaf": "z"}
+    templates = dict(LEAVES)
     texts = collections.defaultdict(str)
     for i, nd in enumerate(nodes):
         tn = tname(i)
         if nd["entry"] in ("mac", "call"):
             texts[tn] += "{%% macro n%d() %%}%s{%% endmacro %%}" % (i, body(i))
-        elif nd["entry"] == "blk":
+        elif nd["entry"] == "blk" and not inline[i] and not (i == 0 and root_inline):
             texts[tn] += "{%% if false %%}{%% block b%d %%}%s{%% endblock %%}{%% endif %%}" % (i, body(i))
     for s, i in enumerate(seg_start):
         templates["t%d" % s] = HEADER + texts["t%d" % s] + body(i)
-    root_call = wrap_text(list(root_wraps), invoke(0), ["z0", "h", "h2", "w"] + ["n%d" % j for j in range(k) if nodes[j]["entry"] in ("mac", "call") and seg_of[j] < 0])
+    root_call = wrap_text(list(root_wraps), invoke(0, rs, root_inline), names_for(-1))
     pre = []
+    cs = chain_spells or [(None, None)] * supers
     if supers == 0:
         templates["main"] = HEADER + texts["main"] + root_call
     else:
         cw = chain_wraps or [[] for _ in range(supers)]
         for j in range(supers):
-            templates["main" if j == 0 else "c%d" % j] = ("{%% extends 'c%d' %%}{%% block b %%}%s%s{%% endblock %%}"
-                                                         % (j + 1, PROBE, wrap_text(cw[j], "{{ super() }}", [])))
+            templates["main" if j == 0 else "c%d" % j] = ("%s{%% block b %%}%s%s{%% endblock %%}"
+                                                         % (extends_text("c%d" % (j + 1), cs[j][0]), PROBE, wrap_text(cw[j], SUPER_SPELL[cs[j][1] or "fast"], [])))
         templates[host] = HEADER + texts[host] + "{% block b %}" + PROBE + root_call + "{% endblock %}"
         pre.append(call(KB))
         for j in range(supers):
             pre += [[0]] + wrap_items(cw[j]) + [call(KS)]
         pre.append([0])
-    pre += wrap_items(root_wraps) + edge_items(nodes[0]["entry"])
+    pre += wrap_items(root_wraps) + edge_items(nodes[0]["entry"], "self" if root_inline else rs)
     cyc = []
     for i in range(k):
         cyc += node_items(i)
-    desc = {"family": "cycle", "edges": [nd["entry"] for nd in nodes], "works": [nd["works"] for nd in nodes],
-            "wraps": [nd["wraps"] for nd in nodes], "root_wraps": list(root_wraps), "supers_before": supers}
+    desc = {"family": "cycle", "edges": [nd["entry"] for nd in nodes],
+            "spellings": [("inline" if inline[j] else nodes[j]["spell"]) for j in range(k)], "start_spelling": "inline" if root_inline else rs,
+            "works": [nd["works"] for nd in nodes],
+            "wraps": [nd["wraps"] for nd in nodes], "root_wraps": list(root_wraps), "supers_before": supers,
+            "chain_spellings": [[a or "literal", b or "fast"] for a, b in cs[:supers]]}
     return {"templates": templates, "main": "main", "pre": pre, "cyc": cyc, "nest": 0, "desc": desc}
 
 
-def superself_shape(supers, works, wraps):
+def module_macro_shape(nodes, how):
+    """macro recursion whose macros live in a library template; main gets at the first one through the module
+    object (CallMethod on the module) or through from-import"""
+    k = len(nodes)
+    nodes = [dict(nd, entry="mac", spell=(nd.get("spell") if nd.get("spell") in SPELL["mac"] else "call")) for nd in nodes]
+    names = ["z0", "h", "h2", "w"] + ["n%d" % j for j in range(k)]
+    lib = HEADER
+    cyc = []
+    for i, nd in enumerate(nodes):
+        nxt = (i + 1) % k
+        inv = SPELL["mac"][nodes[nxt]["spell"]][0].replace("@N@", "n%d" % nxt)
+        lib += "{%% macro n%d() %%}%s%s%s{%% endmacro %%}" % (i, PROBE, work_text(nd["works"]), wrap_text(nd["wraps"], inv, names))
+        cyc += [[0]] + work_items(nd["works"]) + wrap_items(nd["wraps"]) + edge_items("mac", nodes[nxt]["spell"])
+    start = {"module": "{% import 'lib' as m %}{{ m.n0() }}", "module_set": "{% import 'lib' as m %}{% set v = m.n0() %}",
+             "module_attr": "{% import 'lib' as m %}{% set f = m.n0 %}{{ f() }}", "module_item": "{% import 'lib' as m %}{{ m['n0']() }}",
+             "from": "{% from 'lib' import n0 %}{{ n0() }}", "from_as": "{% from 'lib' import n0 as first %}{{ first() }}",
+             "from_call": "{% from 'lib' import n0 %}{% call n0() %}.{% endcall %}"}[how]
+    templates = dict(LEAVES, lib=lib, main=start)
+    pre = [work([KP, KI]), call(KM)]
+    if how == "from_call":
+        return None
+    return {"templates": templates, "main": "main", "pre": pre, "cyc": cyc, "nest": 0,
+            "desc": {"family": "macros of an imported library", "start_spelling": how, "edges": ["mac"] * k, "spellings": [nd["spell"] for nd in nodes],
+                     "works": [nd["works"] for nd in nodes], "wraps": [nd["wraps"] for nd in nodes]}}
+
+
+MODULE_STARTS = ["module", "module_set", "module_attr", "module_item", "from", "from_as"]
+
+
+def superself_shape(supers, works, wraps, spell=None, chain_spells=None):
     """block b of the rendered template super()s `supers` times; the last parent's b calls self.b().  Depending on
     C06 (which definition self.b() renders when it is reached from a parent definition) the recursion then goes
     through that parent block again or through the whole super() chain again; block and super() edges cost the
     same, so with a bare body (works = wraps = [] when supers > 0) the levels are the same in both readings."""
-    templates = {"leaf": "z"}
+    templates = dict(LEAVES)
     host = "main" if supers == 0 else "c%d" % supers
+    cs = chain_spells or [(None, None)] * supers
+    sp = spell if spell in SPELL["blk"] and spell != "inline" else "self"
     for j in range(supers):
-        templates["main" if j == 0 else "c%d" % j] = "{%% extends 'c%d' %%}{%% block b %%}%s{{ super() }}{%% endblock %%}" % (j + 1, PROBE)
-    templates[host] = HEADER + "{% block b %}" + PROBE + work_text(works) + wrap_text(wraps, "{{ self.b() }}", ["z0", "h", "h2", "w"]) + "{% endblock %}"
+        templates["main" if j == 0 else "c%d" % j] = "%s{%% block b %%}%s%s{%% endblock %%}" % (extends_text("c%d" % (j + 1), cs[j][0]), PROBE, SUPER_SPELL[cs[j][1] or "fast"])
+    templates[host] = HEADER + "{% block b %}" + PROBE + work_text(works) + wrap_text(wraps, SPELL["blk"][sp][0].replace("@B@", "b"), ["z0", "h", "h2", "w"]) + "{% endblock %}"
     pre = [call(KB)]
     for j in range(supers):
         pre += [[0], call(KS)]
     cyc = [[0]] + work_items(works) + wrap_items(wraps) + [call(KB)]
     return {"templates": templates, "main": "main", "pre": pre, "cyc": cyc, "nest": 0,
-            "desc": {"family": "self.block() under %d super()" % supers, "works": works, "wraps": wraps}}
+            "desc": {"family": "self.block() under %d super()" % supers, "works": works, "wraps": wraps, "spellings": [sp],
+                     "chain_spellings": [[a or "literal", b or "fast"] for a, b in cs[:supers]]}}
 
 
-def superchain_shape(n, works, wraps):
+def superchain_shape(n, works, wraps, super_spell="fast", extends_spell="literal"):
     """n templates, each extends the next and its block b calls super(): nested super() deeper than the limit"""
-    templates = {}
-    bodyt = "{% block b %}" + PROBE + work_text(works) + wrap_text(wraps, "{{ super() }}", []) + "{% endblock %}"
+    templates = dict(LEAVES)
+    bodyt = "{% block b %}" + PROBE + work_text(works) + wrap_text(wraps, SUPER_SPELL[super_spell], []) + "{% endblock %}"
     for j in range(n):
         name = "main" if j == 0 else "c%d" % j
         if j + 1 < n:
-            templates[name] = "{%% extends 'c%d' %%}" % (j + 1) + bodyt
+            templates[name] = extends_text("c%d" % (j + 1), extends_spell) + bodyt
         else:
             templates[name] = "{% block b %}" + PROBE + "{% endblock %}"
     return {"templates": templates, "main": "main", "pre": [call(KB)], "cyc": [[0]] + work_items(works) + wrap_items(wraps) + [call(KS)],
-            "nest": 0, "chain": n, "desc": {"family": "super() chain of %d templates" % n, "works": works, "wraps": wraps}}
+            "nest": 0, "chain": n, "desc": {"family": "super() chain of %d templates" % n, "works": works, "wraps": wraps,
+                                            "spellings": [super_spell], "extends_spelling": extends_spell}}
 
 
-def loop_shape(host, works, wraps, nest):
+def loop_shape(host, works, wraps, nest, spell="fast"):
     """recursive for-loop over data nested deeper than the limit; host: where the loop stands"""
-    loop = "{% for x in tree recursive %}" + PROBE + work_text(works) + wrap_text(wraps, "{{ loop(x) }}", ["z0", "h", "h2", "w"]) + "{% endfor %}"
-    templates = {"leaf": "z"}
+    loop = "{% for x in tree recursive %}" + PROBE + work_text(works) + wrap_text(wraps, LOOP_SPELL[spell], ["z0", "h", "h2", "w"]) + "{% endfor %}"
+    templates = dict(LEAVES)
     if host == "top":
         templates["main"] = HEADER + loop
         pre = []
@@ -310,13 +384,13 @@ def loop_shape(host, works, wraps, nest):
         templates["main"] = HEADER + "{% block lb %}" + loop + "{% endblock %}"
         pre = [call(KB)]
     else:
-        templates["main"] = "{% include 't0' %}"
+        templates["main"] = "{% include ['t0'] %}"
         templates["t0"] = HEADER + loop
         pre = [call(KI)]
     pre = pre + [call(KP)]
     cyc = [[0]] + work_items(works) + wrap_items(wraps) + [call(KP)]
     return {"templates": templates, "main": "main", "pre": pre, "cyc": cyc, "nest": nest,
-            "desc": {"family": "recursive loop in " + host, "works": works, "wraps": wraps}}
+            "desc": {"family": "recursive loop in " + host, "works": works, "wraps": wraps, "spellings": [spell]}}
 
 
 # ----------------------------------------------------------------------------------------------
@@ -342,32 +416,57 @@ def max_nesting(limit):
 
 # ----------------------------------------------------------------------------------------------
 # the shape set
-def rnd_node(rng, entry, heavy=True):
+def rnd_spell(rng, entry):
+    return rng.choice(list(SPELL[entry]))
+
+
+def rnd_node(rng, entry, heavy=True, spell=True):
     W, R = list(WORKS), list(WRAPS)
     nw = rng.choice([0, 1, 1, 2]) if heavy else rng.choice([0, 0, 1])
     nr = rng.choice([0, 1, 1, 2]) if heavy else rng.choice([0, 0, 1])
-    return {"entry": entry, "works": [rng.choice(W) for _ in range(nw)], "wraps": [rng.choice(R) for _ in range(nr)]}
+    return {"entry": entry, "works": [rng.choice(W) for _ in range(nw)], "wraps": [rng.choice(R) for _ in range(nr)],
+            "spell": rnd_spell(rng, entry) if spell else None}
+
+
+def rnd_chain(rng, s):
+    return [(rng.choice(list(EXTENDS_SPELL)), rng.choice(list(SUPER_SPELL))) for _ in range(s)]
 
 
 def gen_shapes(chk):
     rng = chk.rng
     shapes = []
-    plain = lambda e: {"entry": e, "works": [], "wraps": []}
-    # every cycle of length 1 and 2: bare, decorated, and started below 1..3 super() edges
+    plain = lambda e, sp=None: {"entry": e, "works": [], "wraps": [], "spell": sp}
+    # every cycle of length 1 and 2 in the first spelling of each edge: bare, decorated, and started below 1..3 super() edges
     for k in (1, 2):
         for tup in itertools.product(ENTRIES, repeat=k):
             shapes.append(dict(cycle_shape([plain(e) for e in tup]), pure=k))
-            shapes.append(cycle_shape([rnd_node(rng, e) for e in tup], root_wraps=[rng.choice(list(WRAPS))]))
+            shapes.append(cycle_shape([rnd_node(rng, e) for e in tup], root_wraps=[rng.choice(list(WRAPS))], root_spell=rnd_spell(rng, tup[0])))
             s = 1 + rng.below(3)
-            shapes.append(cycle_shape([rnd_node(rng, e, False) for e in tup], supers=s,
+            shapes.append(cycle_shape([rnd_node(rng, e, False) for e in tup], supers=s, root_spell=rnd_spell(rng, tup[0]), chain_spells=rnd_chain(rng, s),
                                       chain_wraps=[[rng.choice(PLAIN_WRAPS)] if rng.chance(1, 2) else [] for _ in range(s)]))
+    # EVERY SPELLING of every edge: alone (the edge that closes the cycle and the edge that starts it), and in a
+    # cycle of two with every kind of edge on the other side (both orders of the pair arise from the other kind's turn)
+    for e in ENTRIES:
+        for sp in SPELL[e]:
+            shapes.append(dict(cycle_shape([plain(e, sp)], root_spell=sp), pure=3))
+            for e2 in ENTRIES:
+                shapes.append(cycle_shape([plain(e2), plain(e, sp)], root_spell=canonical(e2)))
+                if chk.thorough:
+                    for sp2 in SPELL[e2]:
+                        shapes.append(cycle_shape([plain(e2, sp2), plain(e, sp)], root_spell=rnd_spell(rng, e2)))
+    # a {% block %} tag standing inside the level that calls it (inline), after every kind of level that may contain one
+    for e in ("inc", "imp", "blk"):
+        for e3 in ENTRIES:
+            shapes.append(cycle_shape([plain(e), plain("blk", "inline"), plain(e3)]))
+    shapes.append(cycle_shape([plain("blk", "inline")], root_spell="inline"))
+    shapes.append(cycle_shape([plain("blk"), plain("blk", "inline"), plain("blk", "inline")], root_spell="inline"))
     # every piece of non-recursive work and every open construct, on every kind of edge
     for e in ENTRIES:
         for wn in WORKS:
-            shapes.append(cycle_shape([{"entry": e, "works": [wn], "wraps": []}]))
+            shapes.append(cycle_shape([{"entry": e, "works": [wn], "wraps": [], "spell": rnd_spell(rng, e)}]))
         for rn in WRAPS:
-            shapes.append(cycle_shape([{"entry": e, "works": [], "wraps": [rn]}]))
-    # cycles of length 3 and 4
+            shapes.append(cycle_shape([{"entry": e, "works": [], "wraps": [rn], "spell": rnd_spell(rng, e)}]))
+    # cycles of length 3 and 4, a random spelling on every edge
     for k, quick_n in ((3, 125), (4, 140)):
         tups = list(itertools.product(ENTRIES, repeat=k))
         if not chk.thorough and len(tups) > quick_n:
@@ -379,28 +478,49 @@ def gen_shapes(chk):
                 s = rng.choice([0, 0, 0, 1, 2])
                 shapes.append(cycle_shape([rnd_node(rng, e, rep > 0 or rng.chance(1, 2)) for e in tup],
                                           root_wraps=[rng.choice(list(WRAPS))] if rng.chance(1, 3) else [], supers=s,
+                                          root_spell=rnd_spell(rng, tup[0]), chain_spells=rnd_chain(rng, s),
                                           chain_wraps=[[rng.choice(PLAIN_WRAPS)] if rng.chance(1, 2) else [] for _ in range(s)]))
     if chk.thorough:
         for k in (1, 2):
             for tup in itertools.product(ENTRIES, repeat=k):
                 for rep in range(40):
-                    shapes.append(cycle_shape([rnd_node(rng, e) for e in tup], root_wraps=[rng.choice(list(WRAPS))] if rng.chance(1, 2) else []))
-    # self.block() recursion below super(), nested super() deeper than the limit, recursive loops
+                    shapes.append(cycle_shape([rnd_node(rng, e) for e in tup], root_wraps=[rng.choice(list(WRAPS))] if rng.chance(1, 2) else [],
+                                              root_spell=rnd_spell(rng, tup[0])))
+    # macros of an imported library, reached through the module object / from-import
+    lib_works = [w for w in WORKS if w not in BLOCK_WORKS]
+    for how in MODULE_STARTS:
+        shapes.append(dict(module_macro_shape([plain("mac")], how), pure=3))
+        for _ in range(6 if chk.thorough else 2):
+            kk = 1 + rng.below(3)
+            shapes.append(module_macro_shape([{"entry": "mac", "works": [rng.choice(lib_works)] if rng.chance(1, 2) else [],
+                                               "wraps": [rng.choice(list(WRAPS))] if rng.chance(1, 2) else [], "spell": rnd_spell(rng, "mac")} for _ in range(kk)], how))
+    # self.block() recursion below super(), nested super() deeper than the limit, recursive loops - every spelling
     # (below super() the body is kept bare: whether self.b() reached from a parent definition renders that
     # parent definition again or the most derived block - C06 - every level then costs the same either way)
     for s in range(4):
         shapes.append(dict(superself_shape(s, [], []), pure=1 if s in (0, 2) else 2))
+        for sp in SPELL["blk"]:
+            if sp != "inline":
+                shapes.append(superself_shape(s, [], [], sp, rnd_chain(rng, s)))
     for _ in range(4):
-        shapes.append(superself_shape(0, [rng.choice(list(WORKS))], [rng.choice(list(WRAPS))]))
+        shapes.append(superself_shape(0, [rng.choice(list(WORKS))], [rng.choice(list(WRAPS))], rnd_spell(rng, "blk")))
     # (a chain is always longer than the limit it is rendered under; short chains for small limits keep the requests small)
     for n, lo, hi in ((30, 1, 20), (130, 21, 120), (520, 121, 2**40)):
         shapes.append(dict(superchain_shape(n, [], []), pure=1, limits=(lo, hi)))
-        shapes.append(dict(superchain_shape(n, [rng.choice(PLAIN_WORKS)], [rng.choice(["with", "for", "if", "set", "filter", "autoescape"])]), limits=(lo, hi)))
-        shapes.append(dict(superchain_shape(n, ["withfor"], ["with", "for"]), limits=(lo, hi)))
+        for sp in SUPER_SPELL:
+            for ex in EXTENDS_SPELL:
+                if (sp, ex) != ("fast", "literal") and (n < 520 or chk.thorough or sp == "fast" or ex == "literal"):
+                    shapes.append(dict(superchain_shape(n, [], [], sp, ex), limits=(lo, hi)))
+        shapes.append(dict(superchain_shape(n, [rng.choice(PLAIN_WORKS)], [rng.choice(["with", "for", "if", "set", "filter", "autoescape"])],
+                                            rng.choice(list(SUPER_SPELL)), rng.choice(list(EXTENDS_SPELL))), limits=(lo, hi)))
+        shapes.append(dict(superchain_shape(n, ["withfor"], ["with", "for"], rng.choice(list(SUPER_SPELL)), rng.choice(list(EXTENDS_SPELL))), limits=(lo, hi)))
     for host in ("top", "macro", "block", "include"):
         shapes.append(dict(loop_shape(host, [], [], 520), pure=1 if host == "top" else 2))
-        shapes.append(loop_shape(host, [rng.choice(list(WORKS))], [rng.choice(["with", "if", "set", "filter", "autoescape"])], 520))
-    return shapes
+        for sp in LOOP_SPELL:
+            if sp != "fast":
+                shapes.append(dict(loop_shape(host, [], [], 520, sp), pure=3 if host == "top" else 0))
+        shapes.append(loop_shape(host, [rng.choice(list(WORKS))], [rng.choice(["with", "if", "set", "filter", "autoescape"])], 520, rng.choice(list(LOOP_SPELL))))
+    return [sh for sh in shapes if sh is not None]
 
 
 def shape_key(s):
@@ -516,13 +636,15 @@ def main():
         n_grid = len(cases)
         pure = [i for i, sh in enumerate(shapes) if sh.get("pure")]
         if not chk.thorough:
-            pure = [i for i in pure if shapes[i]["pure"] == 1]
+            pure = [i for i in pure if shapes[i]["pure"] in (1, 3)]
         else:
             # and on a seeded sample of 200 decorated programs
             rest = [i for i, sh in enumerate(shapes) if not sh.get("pure") and not sh["nest"] and "limits" not in sh]
             pure += sorted(set(rest[chk.rng.below(len(rest))] for _ in range(200)))
         for i in pure:
             for lv in range(1, 501):
+                if shapes[i].get("pure") == 3 and not chk.thorough and lv > 64 and lv % 13:
+                    continue     # the other spellings: every limit up to 64, then every 13th (all of them in the thorough tier)
                 if lv not in LIMITS and fits(i, lv) and not (shapes[i]["nest"] and lv > 160 and lv % 20):
                     cases.append((i, lv))
     lines = [model_line(500 if lv is None else lv, shapes[i]) for (i, lv) in cases]
@@ -637,6 +759,7 @@ def main():
     hist = collections.Counter()
     nontriv = set()
     lvl_hist = collections.Counter()
+    spell_hist = collections.Counter()
     for j, (i, lv) in enumerate(cases):
         s = shapes[i]
         d = s["desc"]
@@ -647,6 +770,19 @@ def main():
                 hist["edge: " + e] += 1
             if d["supers_before"]:
                 hist["cycle entered below super()"] += 1
+        if "edges" in d:
+            for e, sp in zip(d["edges"], d.get("spellings", [])):
+                spell_hist["%s: %s" % (e, sp)] += 1
+            if d.get("start_spelling"):
+                spell_hist["start %s: %s" % (d["edges"][0] if fam == "cycle" else "library macro", d["start_spelling"])] += 1
+        else:
+            for sp in d.get("spellings", []):
+                spell_hist["%s: %s" % ("loop()" if "loop" in fam else "super()" if "chain" in fam else "self.block()", sp)] += 1
+            if d.get("extends_spelling"):
+                spell_hist["extends: " + d["extends_spelling"]] += 1
+        for ex, su in d.get("chain_spellings", []):
+            spell_hist["extends: " + ex] += 1
+            spell_hist["super(): " + su] += 1
         hist["limit: %s" % ("default" if lv is None else lv)] += 1
         n = model[j][2] if len(model[j]) >= 3 else -1
         lvl_hist["levels %s" % ("0" if n == 0 else "1" if n == 1 else "2-9" if n < 10 else "10-49" if n < 50 else "50+")] += 1
@@ -655,12 +791,20 @@ def main():
     chk.cov["evaluations"] = evaluations
     chk.cov["distinct_nontrivial"] = len(nontriv)
     chk.cov["rule"] = ("program shapes: every cycle of length 1 and 2 over {macro call, call block, include, import, self.block()} edges (bare; with random non-recursive work "
-                       "per level and constructs open around the recursive call; entered below 1-3 super() edges), every work item and every wrapper on every edge kind, "
+                       "per level and constructs open around the recursive call; entered below 1-3 super() edges), EVERY SPELLING of every edge (%d include / %d import+from-import / %d macro call / "
+                       "%d call block / %d self.block() incl. the block tag standing inside its caller / %d super() / %d loop() / %d extends spellings: name as string, list, tuple, variable, "
+                       "computed, lazy iterable, ignore missing, with/without context; macro through a variable, a list item, a map attribute, in filter/test/call arguments, conditions, set, do, "
+                       "with; macros of an imported library through the module object or from-import) alone and in a cycle of two with every kind of edge, a random spelling on every edge of "
+                       "every other program, every work item and every wrapper on every edge kind, "
                        "cycles of length 3 (all 125 edge tuples) and 4 (%s), self.block() recursion below 0-3 super(), super() chains of 30/130/520 templates (always longer than the limit), recursive loops over "
-                       "520-deep data at top level / in a macro / in a block / in an included template; x limits {1,2,5,10,50,100,250,500} (+ default, 501, 1000, 2^40 on a sample; + EVERY limit in [1,500] on the bare single-edge recursions%s) "
+                       "data nested deeper than the limit at top level / in a macro / in a block / in an included template; x limits {1,2,5,10,50,100,250,500} (+ default, 501, 1000, 2^40 on a sample; "
+                       "+ EVERY limit in [1,500] on the bare single-edge recursions%s) "
                        "x {debug, release} x {8 MiB, 2 MiB thread} (+ a sample on the process main thread). "
                        "non-trivial = distinct (program text, limit) whose recursion goes round at least twice before it is refused (model levels >= 2)"
-                       % ("all 625" if chk.thorough else "a seeded sample of 140", " and all bare 2-cycles and a seeded sample of 200 decorated programs" if chk.thorough else ", 2 MiB threads only"))
+                       % (len(SPELL["inc"]), len(SPELL["imp"]), len(SPELL["mac"]), len(SPELL["call"]), len(SPELL["blk"]), len(SUPER_SPELL), len(LOOP_SPELL), len(EXTENDS_SPELL),
+                          "all 625" if chk.thorough else "a seeded sample of 140",
+                          " in every spelling, all bare 2-cycles and a seeded sample of 200 decorated programs" if chk.thorough
+                          else " (first spelling; the other spellings at every limit up to 64 and every 13th above), 2 MiB threads only"))
     chk.cov["exhaustive"] = False
     chk.cov["programs"] = len(shapes)
     chk.cov["program_limit_pairs"] = len(cases)
@@ -674,6 +818,10 @@ def main():
     chk.cov["samples"] = sam
     chk.cov["distribution"] = dict(hist)
     chk.cov["levels_distribution"] = dict(lvl_hist)
+    chk.cov["spelling_distribution"] = dict(sorted(spell_hist.items()))
+    all_spellings = (["%s: %s" % (e, sp) for e in SPELL for sp in SPELL[e]] + ["super(): " + x for x in SUPER_SPELL] + ["loop(): " + x for x in LOOP_SPELL]
+                     + ["extends: " + x for x in EXTENDS_SPELL] + ["start library macro: " + x for x in MODULE_STARTS])
+    chk.cov["spellings_never_rendered"] = [x for x in all_spellings if not spell_hist.get(x)] if not chk.replay else []
     chk.cov["outcomes"] = dict(counts)
     chk.cov["model_vs_spec_disagreements"] = len(mvs)
     chk.cov["kernel_crosscheck"] = {"cases": len(kidx), "agree": kernel_ok}
